@@ -167,7 +167,7 @@ class DocBuilder:
             import datetime as _dt
             t0 = self.g.choice(self.times[-4:])
             tzs = [None, _dt.timezone.utc, _dt.timezone(_dt.timedelta(hours=5)), _dt.timezone(_dt.timedelta(hours=-3))]
-            t = t0.replace(tzinfo=self.g.choice([z for z in tzs if z != t0.tzinfo]))
+            t = t0.replace(tzinfo=self.g.choice([z for z in tzs if (None if z is None else z.utcoffset(None)) != t0.utcoffset()]))
         self.times.append(t)
         k = self.g.rng.random()
         if k < 0.5:
